@@ -343,12 +343,25 @@ def rule_roundtrip(ctx, res, sizes):
         except AnalysisError:
             continue
         rt = se.roundtrip
-        if isinstance(rt, AnalysisError):
-            res.info('R-C03-layout', se.cls.qual,
-                     '{}: whole-function evaluation could not follow the '
-                     'codec'.format(sec), str(rt)[:160])
-            continue
         skip = set(ref.MUSIC_UNREPRESENTABLE) if sec == 'music' else set()
+        if isinstance(rt, AnalysisError):
+            ok, d, note = se.prefix_check('writer', skip)
+            f = ctx.model.lookup_method(se.cls, 'from_lines')
+            if ok:
+                res.check(d is None, 'R-C03-layout', se.cls.qual,
+                          '{}: from_lines(to_lines(memory)) == memory on '
+                          'every path (tests on content bits followed)'
+                          .format(sec), note,
+                          '{} section does not survive write-then-read: '
+                          '{}'.format(sec, d), f.loc if f else '',
+                          semantic=True)
+                decided.add(sec)
+            else:
+                res.info('R-C03-layout', se.cls.qual,
+                         '{}: whole-function evaluation could not follow '
+                         'the codec'.format(sec),
+                         (str(rt) + ' / ' + note)[:200])
+            continue
         d = se.mem_diff(rt, skip)
         f = ctx.model.lookup_method(se.cls, 'from_lines')
         res.check(d is None, 'R-C03-layout', se.cls.qual,
